@@ -840,16 +840,21 @@ Qed.
 
 Lemma resolve_ext pm pm' r : (forall p, pm p = pm' p) -> resolve pm r = resolve pm' r.
 Proof. intro H. destruct r; cbn; auto. now rewrite H. Qed.
+Lemma set_upds_ext pm pm' o a v : (forall p, pm p = pm' p) -> set_upds pm o a v = set_upds pm' o a v.
+Proof.
+  intro H. destruct v as [s|r|l]; cbn; auto.
+  - now rewrite (resolve_ext _ _ r H).
+  - f_equal. apply map_ext. intro r. now rewrite (resolve_ext _ _ r H).
+Qed.
 Lemma upds_ext pm pm' k : (forall p, pm p = pm' p) -> upds pm k = upds pm' k.
 Proof.
   intro H. destruct k as [|o a n simple|o a r|o a v|o a n f]; cbn; auto.
-  - rewrite (resolve_ext _ _ o H). f_equal. apply map_ext. intros [k v]. cbn. f_equal.
-    destruct v; cbn; auto. now rewrite (resolve_ext _ _ r H).
+  - rewrite (resolve_ext _ _ o H). f_equal. apply flat_map_ext. intros [k v]. cbn. now apply set_upds_ext.
   - now rewrite (resolve_ext _ _ o H), (resolve_ext _ _ r H).
-  - rewrite (resolve_ext _ _ o H). destruct v; cbn; auto. now rewrite (resolve_ext _ _ r H).
+  - rewrite (resolve_ext _ _ o H). now apply set_upds_ext.
 Qed.
 
-Definition writes_l pm (o a : str) (x : act) : list str := flat_map (wl o a) (upds pm (a_kind x)).
+Definition writes_l pm (o a : str) (x : act) : list upd := flat_map (wl o a) (upds pm (a_kind x)).
 Definition writes_v pm (o a : str) (x : act) : list cval := flat_map (wv o a) (upds pm (a_kind x)).
 (* no two different actions of the document write the same cell *)
 Definition cell_indep pm (l : list act) : Prop :=
@@ -873,7 +878,7 @@ Proof.
   assert (IN : forall x, In x (rev (sX s)) -> In x (shells d)).
   { intros x Hx. eapply Permutation_in; [exact X1|]. now apply in_rev. }
   split.
-  - transitivity (flat_map (writes_l (lookupP (sP s)) o a) (rev (sX s'))).
+  - f_equal. transitivity (flat_map (writes_l (lookupP (sP s)) o a) (rev (sX s'))).
     + apply (perm_flat_map_indep (writes_l (lookupP (sP s)) o a)); [exact RP|]. intros x y Hx Hy.
       destruct (Hi o a x y (IN _ Hx) (IN _ Hy)) as [->|[[A|A] _]]; auto.
     + apply flat_map_ext. intro x. unfold writes_l. now rewrite EXT.
@@ -896,20 +901,24 @@ Qed.
 Lemma wl_cells pm o a x : writes_l pm o a x = [] \/ exists c, In c (lcells pm x) /\ cell_eqb o a (fst c) (snd c) = true.
 Proof.
   unfold writes_l, lcells. induction (upds pm (a_kind x)) as [|u l IH]; [now left|].
-  cbn [flat_map]. destruct u as [o' a' m|o' a' v]; cbn [wl].
+  cbn [flat_map]. destruct u as [o' a' m|o' a' v|o' a']; cbn [wl].
   - destruct (cell_eqb o a o' a') eqn:E.
     + right. exists (o', a'). split; [now left|exact E].
     + destruct IH as [IH|(c & Hc & Ec)]; [left; exact IH|right]. exists c. split; [now right|exact Ec].
   - destruct IH as [IH|(c & Hc & Ec)]; [left; exact IH|right]. exists c. split; [exact Hc|exact Ec].
+  - destruct (cell_eqb o a o' a') eqn:E.
+    + right. exists (o', a'). split; [now left|exact E].
+    + destruct IH as [IH|(c & Hc & Ec)]; [left; exact IH|right]. exists c. split; [now right|exact Ec].
 Qed.
 Lemma wv_cells pm o a x : writes_v pm o a x = [] \/ exists c, In c (vcells pm x) /\ cell_eqb o a (fst c) (snd c) = true.
 Proof.
   unfold writes_v, vcells. induction (upds pm (a_kind x)) as [|u l IH]; [now left|].
-  cbn [flat_map]. destruct u as [o' a' m|o' a' v]; cbn [wv].
+  cbn [flat_map]. destruct u as [o' a' m|o' a' v|o' a']; cbn [wv].
   - destruct IH as [IH|(c & Hc & Ec)]; [left; exact IH|right]. exists c. split; [exact Hc|exact Ec].
   - destruct (cell_eqb o a o' a') eqn:E.
     + right. exists (o', a'). split; [now left|exact E].
     + destruct IH as [IH|(c & Hc & Ec)]; [left; exact IH|right]. exists c. split; [now right|exact Ec].
+  - destruct IH as [IH|(c & Hc & Ec)]; [left; exact IH|right]. exists c. split; [exact Hc|exact Ec].
 Qed.
 
 Lemma disj_spec c1 c2 c c' o a : disj c1 c2 = true -> In c c1 -> In c' c2 ->
